@@ -69,6 +69,21 @@ func allocCheck(name string, sw *schedWorld, x *sched.Exec, final bool) []sched.
 	// which (handle / address) may legitimately have been freed by a release that has started
 	releasedHandle := map[string]bool{}
 	releasedIP := map[string]string{} // ip -> handle named ("" = any owner)
+	noteRelease := func(op vOp) {
+		switch op.Kind {
+		case "rbh":
+			releasedHandle[op.Handle] = true
+		case "release":
+			h := ""
+			if op.WithHandle {
+				h = op.Handle
+			}
+			releasedIP[op.IP] = h
+		}
+	}
+	for _, op := range sw.sc.Setup {
+		noteRelease(op)
+	}
 	for ti, ops := range sw.sc.Threads {
 		for oi, op := range ops {
 			if !sw.res[ti][oi].Started {
